@@ -338,10 +338,9 @@ func referenceAsTypeOf(block *hcl.Block, rngPtr *hcl.Range, bSchema *schema.Bloc
 		ref.Description = bSchema.Body.Description
 	}
 
-	attrs, diags := block.Body.JustAttributes()
-	if diags.HasErrors() {
-		return reference.Targets{ref}
-	}
+	// JustAttributes reports every nested block as an error but still returns
+	// the attributes, which is all that is needed here
+	attrs, _ := block.Body.JustAttributes()
 
 	if bSchema.Address.AsTypeOf.AttributeExpr != "" {
 		typeDecl, ok := asTypeOfAttrExpr(attrs, bSchema)
